@@ -32,6 +32,13 @@ def matrix(fam, n, batch, seed):
         A = torch.eye(n, dtype=torch.float64).expand(*batch, n, n).clone()
     elif fam in ("diag_e1", "diag_ones"):
         A = torch.diag_embed(torch.arange(1.0, n + 1, dtype=torch.float64)).expand(*batch, n, n).clone()
+    elif fam == "diag_pairs":  # eigenvalues 1,1,2,2,3,3,..: from the all-ones start the Krylov space has dimension ceil(n/2) (exact breakdown mid-run)
+        A = torch.diag_embed(torch.arange(n, dtype=torch.float64).div(2, rounding_mode="floor") + 1.0).expand(*batch, n, n).clone()
+    elif fam == "hetero":  # a batch whose last member (2 I) breaks down at the first step while the others keep going
+        A, _ = RA.spd("unif", n, 100.0, 1.0, f"Lhet{n}", seed, batch)
+        if batch:
+            A = A.clone()
+            A[(-1,) * len(batch)] = 2.0 * torch.eye(n, dtype=torch.float64)
     elif fam == "rankdef":
         mats = []
         for i in range(max(1, int(torch.Size(batch).numel()))):
@@ -47,7 +54,7 @@ def matrix(fam, n, batch, seed):
 
 def cases(tier, seed):
     out = []
-    fams = ["geom", "unif", "clustered", "repeated", "rankdef", "identity", "diag_e1", "diag_ones"]
+    fams = ["geom", "unif", "clustered", "repeated", "rankdef", "identity", "diag_e1", "diag_ones", "diag_pairs", "hetero"]
     ns = [2, 3, 5, 8, 16] if tier == "quick" else [2, 3, 4, 5, 8, 13, 16, 33, 64]
     for fam, n, b, init, dt in itertools.product(fams, ns, [[], [2], [2, 2]], ["single", "multi", "random"], ["f64", "f32"]):
         if len(b) == 2 and (n > 8 or init == "multi"):
@@ -82,7 +89,7 @@ def run(case):
         v[..., 0, :] = 1.0
         if init == "multi":
             v = torch.cat([v, torch.ones(*b, n, 1, dtype=dt), torch.randn(*b, n, 1, generator=RA.gen("v3", env.SEED), dtype=torch.float64).to(dt)], -1)
-    elif case["fam"] == "diag_ones":
+    elif case["fam"] in ("diag_ones", "diag_pairs"):
         v = torch.ones(*b, n, 1 if init != "multi" else 3, dtype=dt)
     else:
         v = torch.randn(*b, n, 1 if init != "multi" else 3, generator=RA.gen(f"v{n}", env.SEED), dtype=torch.float64).to(dt)
@@ -130,9 +137,10 @@ def run(case):
                 bad = ("tridiagonal", "T has entries outside the three diagonals")
             if bad is None:
                 # the Lanczos relation Q^T A Q = T is only meaningful on live columns
+                # (dead columns of Q are exactly zero, so both sides vanish on their rows and columns: a coefficient left in T
+                # next to a dead column is a violation)
                 P = (Q64.mT @ A64 @ Q64)
-                mask = live.unsqueeze(-1) & live.unsqueeze(-2)
-                d = ((P - T64) * mask).abs().amax().item()
+                d = (P - T64).abs().amax().item()
                 worst = max(worst, d / (tol * anorm))
                 if d > tol * anorm:
                     bad = ("projection", f"|Q^T A Q - T| = {d:.3g} > {tol * anorm:.3g}")
